@@ -252,7 +252,8 @@ CHECKS = {
         text="Complete enumeration of the finite space (10 tableaux x rows x 17 rooted trees of order <=5, row sums, "
              "stage/order attributes, constant-coefficient expansion, Taylor tables) against Butcher theory computed by the "
              "harness, plus Hypothesis-generated polynomial non-autonomous ODE systems whose exact-flow power series the RK "
-             "step map must reproduce through h^p. The finite part is exhaustive, so for it exploration equals decision.",
+             "step map must reproduce through h^p. All of it is evaluated on RungeKutta(method) and again on the tables the integrators "
+             "receive, EvolveConfig(rk_solver=method, adaptive=0/1).rk_config / .taylor_config. The finite part is exhaustive, so for it exploration equals decision.",
         design_ref="DESIGN.md §4 C19",
         note="Trusted: harness implementation of elementary weights / density, advertised orders from the literature table.",
         technique="exhaustive enumeration + property-based testing (Hypothesis) vs Butcher order conditions and power-series oracle",
